@@ -14,6 +14,7 @@ import NiftyVerif.Lemmas.Coo
 import NiftyVerif.Lemmas.LinOps
 import NiftyVerif.Lemmas.LinOpsWf
 import NiftyVerif.Lemmas.Transpose
+import NiftyVerif.Lemmas.LinOpsMore
 import NiftyVerif.Lemmas.CQ
 
 namespace NiftyVerif.C02
@@ -521,6 +522,54 @@ theorem transpose2_inverse_partial {cj : K → K} (hc1 : cj 1 = 1) (a b : Nat) (
       _ = a * b := Nat.mul_comm _ _
   · exact hi
 
+
+/-! ### identity-type and block-type operators, einsum -/
+
+/-- fields on a DomainTuple may be indexed at sub-domain granularity: raveling all axes = raveling the per-sub-domain
+    flat indices over the sub-domain sizes (justifies the `sizes`-level models of contraction, distributor, transpose, …) -/
+theorem subdomain_granularity (shapes idxs : List (List Nat)) (hl : shapes.length = idxs.length)
+    (h : ∀ p ∈ shapes.zip idxs, p.2.length = p.1.length) :
+    ravel shapes.flatten idxs.flatten = ravel (shapes.map prodL) ((shapes.zip idxs).map fun p => ravel p.1 p.2) :=
+  ravel_grouped shapes idxs hl h
+
+/-- SqueezeOperator / `expand_dims`: removing or inserting a unit axis does not move any pixel in the raveled data -/
+theorem squeeze_is_identity (a i b j : List Nat) (h : i.length = a.length) :
+    ravel (a ++ 1 :: b) (i ++ 0 :: j) = ravel (a ++ b) (i ++ j) := ravel_unit_axis a i b j h
+
+/-- SqueezeOperator, GeometryRemover, DomainChangerAndReshaper, FieldAdapter, Multifield2Vector (model `ident n`):
+    `y = x` on raveled data; the operator is its own adjoint (hence its own inverse where all modes are advertised) -/
+theorem identity_ops_spec {cj : K → K} (hc1 : cj 1 = 1) (n : Nat) (x : Nat → K) (r : Nat) (hr : r < n) :
+    apply (ident n) x r = x r ∧ adj cj (ident n : Coo K) = ident n ∧ (ident n : Coo K).wf = true :=
+  ⟨ident_apply n x r hr, ident_adj hc1 n, ident_wf n⟩
+
+/-- _SlowFieldAdapter, PartialExtractor, PrependKey (model `blockOps`): every target block copies its domain block -/
+theorem block_ops_spec (rows cols : Nat) (bs : List (Nat × Nat × Nat)) (x : Nat → K) (r : Nat) :
+    apply (blockOps rows cols bs) x r =
+      sumL (bs.map fun b => if b.1 ≤ r ∧ r < b.1 + b.2.2 then x (b.2.1 + (r - b.1)) else 0) :=
+  blockOps_apply rows cols bs x r
+
+theorem block_ops_wellformed (rows cols : Nat) (bs : List (Nat × Nat × Nat))
+    (h : ∀ b ∈ bs, b.1 + b.2.2 ≤ rows ∧ b.2.1 + b.2.2 ≤ cols) : (blockOps rows cols bs : Coo K).wf = true :=
+  blockOps_wf rows cols bs h
+
+/-- LinearEinsum: `y[os] = Σ_{assignments a of all letters with os(a) = r} Π_k mf_k[letters_k(a)] · x[xs(a)]` -/
+theorem einsum_spec (letters : List Char) (sz : Char → Nat) (ops : List (List Char × List K)) (xs os : List Char)
+    (x : Nat → K) (r : Nat) :
+    apply (einsum letters sz ops xs os) x r =
+      sumN (prodL (letters.map sz)) fun t =>
+        let a := unravel (letters.map sz) t
+        let flat := fun (ls : List Char) => ravel (ls.map sz) (ls.map fun c => a.getD (letters.idxOf c) 0)
+        if flat os = r then prodK (ops.map fun o => o.2.getD (flat o.1) 0) * x (flat xs) else 0 := by
+  unfold apply applyE einsum sumN
+  simp only [List.map_map]
+  rfl
+
+/-- … and its adjoint is the einsum with input/output subscripts exchanged and conjugated static operands —
+    what `LinearEinsum.apply` computes in ADJOINT_TIMES mode (`_adj_sscr`, `mf.conjugate()`) -/
+theorem einsum_adjoint {cj : K → K} (hc : IsConj cj) (hc1 : cj 1 = 1) (letters : List Char) (sz : Char → Nat)
+    (ops : List (List Char × List K)) (xs os : List Char) :
+    adj cj (einsum letters sz ops xs os) = einsum letters sz (ops.map fun o => (o.1, o.2.map cj)) os xs :=
+  einsum_adj hc hc1 letters sz ops xs os
 
 /-! ## Part 3 — the adjoint identity for each modelled operator class, every configuration
     (`coo_adjoint` + well-formedness of the class model, Lemmas/LinOpsWf.lean) -/
